@@ -72,6 +72,30 @@ def run_uf_hist(case):
     return {"kind": "uf_hist", "n": n, "input": case, "events": events}
 
 
+def run_uf_many(case):
+    """several short-lived UnionFind objects of one size, created and dropped one after the other in one process (what a loop over
+    candidate partitions does): each is its own trace; state kept outside the object (a cache keyed by address or size) shows up
+    as one object answering for another"""
+    out = []
+    for k, ops in enumerate(case["rounds"]):
+        tr = run_uf_hist({"n": case["n"], "ops": ops})
+        tr["input"] = {"many": case, "index": k}
+        out.append(tr)
+    return {"traces": out}
+
+
+def gen_uf_many(rng):
+    n = rng.randint(3, 8)
+    rounds = []
+    for _ in range(rng.randint(3, 7)):
+        ops = [("union", rng.randrange(n), rng.randrange(n)) for _ in range(rng.randint(1, 3))]
+        ops += [("components", 0, 0), ("sizes", 0, 0), ("count", 0, 0), ("connected", rng.randrange(n), rng.randrange(n)), ("find", rng.randrange(n), 0)]
+        if rng.random() < 0.5:
+            ops += [("union", rng.randrange(n), rng.randrange(n)), ("components", 0, 0)]
+        rounds.append(ops)
+    return {"n": n, "rounds": rounds}
+
+
 def run_uf_step(case):
     """Put a real object into a TLC-enumerated implementation state and apply every call to it."""
     from solvor.utils import UnionFind
@@ -98,22 +122,39 @@ def run_fw_hist(case):
     from solvor.utils import FenwickTree
     events = []
     init = case["init"]          # scaled integers (units of 1/4)
+    K = case.get("shift", 0)     # huge integers: every cell holds K + small (all multiples of 1), "exactly as a plain array" means exact ints
     try:
-        if case.get("zeros"):
+        if K:
+            if case.get("zeros"):
+                ft = FenwickTree(len(init))
+                for i in range(len(init)):
+                    ft.update(i, K)
+            else:
+                ft = FenwickTree([K + v // SCALE for v in init])
+        elif case.get("zeros"):
             ft = FenwickTree(len(init))
         else:
             ft = FenwickTree([v / SCALE for v in init])
+
+        def unshift(x, cells):
+            if not K:
+                return x
+            if isinstance(x, float) and x == int(x):
+                x = int(x)
+            return x - K * cells
         for ev in case["ops"]:
             op = ev[0]
             if op == "update":
-                ft.update(ev[1], ev[2] / SCALE)
+                ft.update(ev[1], ev[2] // SCALE if K else ev[2] / SCALE)
                 events.append({"op": "update", "i": ev[1], "d": ev[2]})
             elif op == "prefix":
-                r, ex = _q(ft.prefix(ev[1]))
+                r, ex = _q(unshift(ft.prefix(ev[1]), ev[1] + 1))
                 events.append({"op": "prefix", "i": ev[1], "ret": r, "exact": ex})
             elif op == "range":
-                r, ex = _q(ft.range_sum(ev[1], ev[2]))
+                r, ex = _q(unshift(ft.range_sum(ev[1], ev[2]), ev[2] - ev[1] + 1))
                 events.append({"op": "range", "lo": ev[1], "hi": ev[2], "ret": r, "exact": ex})
+            elif op == "tree" and K:
+                continue
             elif op == "len":
                 events.append({"op": "len", "ret": len(ft)})
             elif op == "tree":
@@ -204,4 +245,9 @@ def gen_fw_hist(rng, nmax=40, maxops=120):
             ops.append(("tree",))
         else:
             ops.append(("len",))
-    return {"init": init, "zeros": zeros, "ops": ops}
+    case = {"init": init, "zeros": zeros, "ops": ops}
+    if rng.random() < 0.12:
+        case["shift"] = rng.choice([2 ** 53, 2 ** 53 + 1, 10 ** 17, 2 ** 62 + 3])
+        case["init"] = [v * SCALE for v in init]
+        case["ops"] = [(o[0], o[1], o[2] * SCALE) if o[0] == "update" else o for o in ops]
+    return case
